@@ -75,7 +75,7 @@ Spec == Init /\ [][Next]_vars
 View == <<Canon(T, T.root), Len(T.free), Len(T.nd), T.ucap, peak>>
 
 \* ---- invariants ------------------------------------------------------------------------
-Structure == WellFormed(T) /\ PoolOK(T)
+Structure == WellFormed(T) /\ PoolOK(T) /\ (Shape(T) <=> ShapeByInDegree(T))
 GrowthOK  == Len(T.nd) <= 3 * (peak + 1) + Max(Cap0, 8)
 
 SlotOfKey(k) == CHOOSE s \in Reach(T) : N(T, s).k = k
